@@ -11,7 +11,7 @@ PROPS["C20"] = {
              "(user without ':', password arbitrary incl. ':' NUL >=0x80) through Authorization, (c) arbitrary and mutated-valid "
              "Base64 text through Decode and the Authorization accessors. Non-trivial = round trip with length mod 3 != 0 or a "
              "byte >= 0x80; credentials with a ':' in the password or non-multiple-of-3 length; invalid text whose defect is not "
-             "in the last quantum. Distinct = hash of the decoded case. The Authorization header is treated as a value: by the credential lengths it is read directly, move-constructed or move-assigned with the source then given other credentials, copied with the source destroyed, or moved with the source destroyed and its memory re-used."),
+             "in the last quantum. Distinct = hash of the decoded case. The Authorization header is treated as a value: by the credential lengths it is read directly, move-constructed or move-assigned with the source then given other credentials, copied with the source destroyed, or moved with the source destroyed and its memory re-used. A namespace-scope object of the harness uses the API during static initialisation, before main() (Base64 encode/decode and Basic credentials); its results are judged in the first case."),
     "engine": "rapidcheck+libFuzzer",
     "technique": "property-based testing (rapidcheck) and coverage-guided fuzzing (libFuzzer) against an independent RFC 4648 reference codec and a credentials round-trip oracle",
     "level_text": "Generated-input search with an independent reference codec: every explored byte string / credential pair / text is compared with the reference; sanitizers make out-of-bounds accesses visible. Exploration, not proof: lengths 0..600 and the sampled byte values.",
@@ -30,7 +30,7 @@ PROPS["C19"] = {
              "localhost) x port parts (absent, valid incl. 0/80/65535, empty, >65535, overlong, negative, non-numeric, unspecified forms) x "
              "structural mutations (junk after ']', missing/doubled/empty brackets, bad groups, doubled colon, bad IPv4), through "
              "Address(string), Address(host,Port) and Port(string). A reference grammar classifies each text must-accept / must-reject / "
-             "unspecified. Non-trivial = compressed IPv6, boundary port, rejected port form, or a structural mutation; distinct = hash of the text. One case in four (by a hash of its bytes) runs with the process's global C++ locale set to one that groups digits (classic + numpunct grouping 3): protocol text must not change. Address(const char*) is used for half of the NUL-free texts and the parsed address is moved once before it is read."),
+             "unspecified. Non-trivial = compressed IPv6, boundary port, rejected port form, or a structural mutation; distinct = hash of the text. One case in four (by a hash of its bytes) runs with the process's global C++ locale set to one that groups digits (classic + numpunct grouping 3): protocol text must not change. Address(const char*) is used for half of the NUL-free texts and the parsed address is moved once before it is read. A namespace-scope object of the harness uses the API during static initialisation, before main() (an IPv4 and an IPv6 address parsed and printed); its results are judged in the first case. One case in sixteen runs three threads that parse different IPv4 addresses at the same moment, each checking its own host, port and family."),
     "engine": "rapidcheck+libFuzzer",
     "technique": "property-based testing (rapidcheck) and libFuzzer against a reference address grammar (accept/reject classes, inet_pton/inet_ntop canonical form) plus a print/re-parse round trip",
     "level_text": "Generated-input search against a reference grammar written for the harness; checks both directions (valid forms accepted with exact host/port/family and re-parseable printing; invalid ports and malformed literals rejected with std::invalid_argument). Exploration only.",
@@ -50,7 +50,7 @@ PROPS["C18"] = {
              "MediaType(type,sub[,suffix])+setQuality+setParam; and an invalid half (truncation after / + ; = q=, absurd q-values, byte "
              "mutations, random bytes). Every text is parsed twice: fromString and fromRaw on a buffer ending at a PROT_NONE guard page. "
              "Non-trivial = has a q-value, parameter or suffix, or a mutated text ending at a separator / with an absurd or buffer-final q. "
-             "Distinct = hash of the text. Each valid text goes through four doors: fromString(const&), fromRaw on the guard page, the parsing constructor MediaType(text, DoParse), and fromString(&&) whose result is copied, the first object destroyed and its memory re-used before the copy is read."),
+             "Distinct = hash of the text. Each valid text goes through four doors: fromString(const&), fromRaw on the guard page, the parsing constructor MediaType(text, DoParse), and fromString(&&) whose result is copied, the first object destroyed and its memory re-used before the copy is read. A namespace-scope object of the harness uses the API during static initialisation, before main() (a media type parsed and one built); its results are judged in the first case."),
     "engine": "rapidcheck+libFuzzer",
     "technique": "property-based testing (rapidcheck) and libFuzzer: generator-AST round-trip oracle, toString()==input, constructed->text->parsed equality, 415-or-parse for mutants, guard-page buffer for over-reads",
     "level_text": "Generated-input search whose oracle is the generator's own AST (independent of the parser) plus a guard page that turns any read past the given length into a fault. Exploration only.",
@@ -69,7 +69,7 @@ PROPS["C17"] = {
              "names that begin with a built-in attribute name) checked by write->parse->compare->write, by hand-serialised text with shuffled "
              "attribute order / name case / spacing, Cookie headers of 0-8 pairs (repeated names, equal and different values) into a jar via "
              "addFromRaw and add, and mutated cookie strings (byte edits, truncation after = ; and attribute names, absurd Max-Age / Expires). "
-             "Non-trivial = >=3 attributes or >=2 extension attributes, a jar with a repeated name or >=3 pairs, any mutated string. Distinct = hash of the text. One case in four (by a hash of its bytes) runs with the process's global C++ locale set to one that groups digits (classic + numpunct grouping 3): protocol text must not change. A jar is also walked with 'cur = it++; use(*cur)': the iterator post-increment returns must be the position it left. When a cookie has an expiry, the same instant may be written through FullDate::write in RFC 850 or asctime form just before the cookie is written."),
+             "Non-trivial = >=3 attributes or >=2 extension attributes, a jar with a repeated name or >=3 pairs, any mutated string. Distinct = hash of the text. One case in four (by a hash of its bytes) runs with the process's global C++ locale set to one that groups digits (classic + numpunct grouping 3): protocol text must not change. A jar is also walked with 'cur = it++; use(*cur)': the iterator post-increment returns must be the position it left. When a cookie has an expiry, the same instant may be written through FullDate::write in RFC 850 or asctime form just before the cookie is written. A namespace-scope object of the harness uses the API during static initialisation, before main() (a cookie parsed and written, a jar filled and walked); its results are judged in the first case."),
     "engine": "rapidcheck+libFuzzer",
     "technique": "property-based testing (rapidcheck) and libFuzzer: generated-cookie round trip compared field by field, jar contents vs the generated pair set, exactly-once iteration, parse-or-std::exception for mutants under ASan/UBSan with a guard-page buffer",
     "level_text": "Generated-input search whose oracle is the generated cookie / pair list (independent of the parser). Exploration only.",
@@ -229,7 +229,7 @@ PROPS["C13"] = {
              "Stage c13_server_drains.cc: the server transport's peer, timer and write queues. A live Http::Endpoint (1-2 workers) whose workers are all held inside a request handler while 0-5 new "
              "connections with a request each (acceptor -> peersQueue), 0-4 response time-outs armed from a foreign thread on parked response writers (timeoutAfter -> timersQueue) and answers "
              "written from a foreign thread (-> writesQueue) are queued; then the workers are released and nothing further is pushed: every connection must be answered with its own tag, every "
-             "time-out must give its 408 no earlier than its duration, every foreign answer must arrive, within 3 s. Non-trivial there = >=2 entries for one queue or entries for two queues behind a held worker."),
+             "time-out must give its 408 no earlier than its duration, every foreign answer must arrive, within 3 s. Non-trivial there = >=2 entries for one queue or entries for two queues behind a held worker. Stage c13_freerun.cc: real threads and the real eventfd without hooks - 1 producer x 2-3 pushes, the later pushes delayed by a busy-wait swept across the duration of the consumer's drain, 1500-3000 trials per case; when both threads have stopped an item still queued must have its notification pending (poll on the eventfd). Non-trivial there = a later push found the consumer mid-drain or just stopped."),
     "engine": "cooperative scheduler (harness/common/sched.h) + rapidcheck",
     "technique": "systematic schedule enumeration (stateless depth-first search over a harness-owned cooperative scheduler at the hook points) plus rapidcheck-generated schedules; oracle = history invariants (multiset, per-producer order, no missed wake-up)",
     "level_text": "Every sequentially consistent interleaving at hook-point granularity is executed for the small configurations (exhaustive: true refers to those); larger configurations are sampled. Real code, real eventfd/epoll objects.",
